@@ -6,6 +6,7 @@ import AdeuModel.Model.Trim
 import AdeuModel.Model.Init
 import AdeuModel.DriverDoc
 import AdeuModel.Model.Mapper
+import AdeuModel.Model.ExtractSegs
 import AdeuModel.Model.Engine
 import AdeuModel.Model.Markup
 import AdeuModel.Model.Tools
@@ -186,7 +187,13 @@ def handleExtract (j : Json) : Except String Json := do
   let mclean := Doc.mapperText true d
   pure <| Json.mkObj [("raw", strJ raw), ("clean", strJ clean), ("map_raw", strJ mraw), ("map_clean", strJ mclean),
     ("raw_unnormalized", strJ (Doc.extractText false d0)),
-    ("concl", Json.mkObj [("text_eq_raw", toJson (raw == mraw)), ("text_eq_clean", toJson (clean == mclean))])]
+    -- C04: hypothesis of C04_document_read_accepted_partial and its conclusion on this document
+    ("concl", Json.mkObj [("text_eq_raw", toJson (raw == mraw)), ("text_eq_clean", toJson (clean == mclean)),
+      ("hyp_document_in_domain", toJson (Doc.domDoc d)),
+      ("raw_read_with_all_accepted_eq_clean",
+        toJson (match Markup.parse raw with | some segs => Markup.acceptView segs == clean | none => false)),
+      ("hyp_document_in_domain_and_read_accepted_eq_clean",
+        toJson (Doc.domDoc d && (match Markup.parse raw with | some segs => Markup.acceptView segs == clean | none => false)))])]
 
 def handleNormalize (j : Json) : Except String Json := do
   let d0 ← DriverDoc.parseDoc (← j.getObjVal? "doc")
